@@ -55,16 +55,17 @@ def runStrict (cfg : Cfg) (trigs : List Trig) (g : GScript) : RunResult :=
     match barIndex cfg with
     | [] => ⟨[.raised .indexError], [], [], trigs, some .indexError⟩
     | ts0 :: bars =>
-      if strictFails cfg ts0 then
-        -- `self.__set_market_snapshot(index_array[0], False)` in front of `initialize()`
-        ⟨(setAllStrictFrom cfg ts0 0 0 cfg.markets).1 ++ [.raised .keyError], [], [], trigs, some .keyError⟩
-      else
-        match splitAtStrictFail cfg bars with
-        | (_, none) => runG cfg trigs g
-        | (good, some bad) =>
-          match priceAt cfg ts0 with
-          | none => ⟨[.raised .keyError], [], [], trigs, some .keyError⟩
-          | some _ =>
+      -- `self.__set_market_snapshot(index_array[0], False)` in front of `initialize()`: the price row is looked up first (it is an argument of
+      -- the first market's `set_market_status`)
+      match priceAt cfg ts0 with
+      | none => ⟨[.raised .keyError], [], [], trigs, some .keyError⟩
+      | some _ =>
+        if strictFails cfg ts0 then
+          ⟨(setAllStrictFrom cfg ts0 0 0 cfg.markets).1 ++ [.raised .keyError], [], [], trigs, some .keyError⟩
+        else
+          match splitAtStrictFail cfg bars with
+          | (_, none) => runG cfg trigs g
+          | (good, some bad) =>
             let c := runCore cfg trigs g ts0 good
             let st := c.1.2.1
             match c.1.2.2 with
